@@ -40,7 +40,8 @@ RULE = ("random interleavings of ALL public mutating calls with a fresh dyadic b
         "propagates independently. Regression modes: raw swap with unequal cutoffs then a sweep (F16), zero-word probing of every RVB draw (F12). "
         "Also: generic samplers with symmetry-breaking single-variable field terms registered first/middle/last among symmetric and constant terms; "
         "interactions with constant diagonal but non-constant matrix ([c,c] shifts, [a,b,b,a], two-site constant-diagonal full matrices) next to "
-        "symmetric and constant terms, constant flag recomputed from the matrix; serial tempering ladders mixing a zero-field replica with field replicas of one sign (>= 30 rounds of [steps; tempering_step], every "
+        "symmetric and constant terms, constant flag recomputed from the matrix; constant two- and three-variable interactions next to symmetric bonds and single-site constant terms on a subset of variables; "
+        "three-variable full matrices with one-/two-bit off-diagonal entries and two-variable single-bit flips under loop updates; serial tempering ladders mixing a zero-field replica with field replicas of one sign (>= 30 rounds of [steps; tempering_step], every "
         "replica judged with its own Hamiltonian after every call). Non-trivial = at least one operator before or after; distinct = distinct (call, Hamiltonian, before, after).")
 
 
@@ -55,5 +56,5 @@ def main(ck):
         ck.correspond("raw-swap-unequal-cutoffs", "drv_c06", cases)
         cases = ck.harness("c06", ["f12"])
         ck.correspond("rvb-zero-word", "drv_c06", cases)
-    full_step.run(ck, modes=["ising"])   # generic mode re-enabled once the loop model is re-synced to fix 7073632 (F22)
+    full_step.run(ck)   # whole-timestep exact trajectories, Ising and generic sampler
     return ck.finish(RULE)
